@@ -15,20 +15,21 @@ import (
 )
 
 // Family first-touch (C12): a resource of the transaction - a table file (by name, with import options, as an inline
-// table), a SOURCE file, an EXECUTE text, a cursor, a local temporary table - that is touched for the FIRST time by
+// table), a SOURCE file, an EXECUTE text, a cursor - that is touched for the FIRST time by
 // an expression evaluated once per record, i.e. by whichever worker gets there first. The records of the lower half
 // of the table reach the resource through one expression, those of the upper half through another; the places are a
 // subquery in the select list, a subquery in WHERE and the body of a user-defined function.
 //
-// Part 1, controlled: 6 records x 3 workers, every expression evaluation and loop iteration a scheduling point, ALL
-// schedules with at most one non-default decision. Part 2, real threads: the same programs over 400 records through
+// Part 1, controlled: 6 records x 3 workers, ALL schedules with at most one non-default decision; the scheduling
+// points are goroutine start and exit, record boundaries, lock and wait-group operations (thorough: every expression
+// evaluation and loop iteration as well). Part 2, real threads: the same programs over 400 records through
 // the command line (`csvq --cpu n`, the real split threshold of 80 records per worker), --cpu 1 as the reference and
 // --cpu 2 and 4 twice each (thorough: six times): what happens between two scheduling points of part 1 - opening,
 // reading and closing a file - overlaps only there. Oracle: the property - result, messages, exit code and file
 // bytes equal to the single-worker run. Which of two conflicting sets of import options OUGHT to win is not judged.
 func init() {
-	core.Extend("C12", "family first-touch: a table file (same options / different no_header, delimiter, without_null / another file / inline), SOURCE, EXECUTE, a cursor and a local temporary table first reached inside per-record evaluation "+
-		"(subquery in the select list, in WHERE, user-function body; lower and upper half of the records through different expressions); part 1: 6 records x 3 workers, all schedules with at most 1 non-default decision at evaluation/loop/lock points; "+
+	core.Extend("C12", "family first-touch: a table file (same options / different no_header, delimiter, without_null / another file / inline), SOURCE, EXECUTE and a cursor first reached inside per-record evaluation "+
+		"(subquery in the select list, in WHERE, user-function body; lower and upper half of the records through different expressions); part 1: 6 records x 3 workers, all schedules with at most 1 non-default decision at record/lock/wait-group points (thorough: evaluation and loop points too); "+
 		"part 2: 400 records through the real command line, --cpu 1 against --cpu 2 and 4, 2 runs each (thorough 6); oracle: result, messages, exit code and file bytes equal to the single-worker run", c12FirstTouchRun)
 }
 
@@ -85,7 +86,6 @@ func c12TouchCases() []c12TouchCase {
 	fn("source-in-function", "SOURCE `inc.sql`; RETURN @a + @zz;")
 	fn("execute-in-function", "EXECUTE 'VAR @q := %s * 2;' USING @a; RETURN @q;")
 	fn("cursor-in-function", "VAR @r; DECLARE cur CURSOR FOR SELECT v FROM g WHERE v = @a % 3 + 1; OPEN cur; FETCH cur INTO @r; CLOSE cur; DISPOSE CURSOR cur; RETURN @r + @a;")
-	fn("temporary-table-in-function", "DECLARE tmp TABLE (x); INSERT INTO tmp VALUES (@a), (@a * 2); RETURN (SELECT SUM(x) FROM tmp);")
 	return out
 }
 
@@ -105,7 +105,7 @@ func c12FirstTouchRun(c *core.Ctx) {
 			return
 		}
 		sc := goxScenario{Name: "first-touch:" + k.Name, Files: c12TouchFiles(6), SQL: k.SQL(2), CPU: 3}
-		c12FamilyScenarioSig(c, "first-touch", k.Class, sc, true, 0, 0, true, nil)
+		c12FamilyScenarioSig(c, "first-touch", k.Class, sc, c.Thorough(), 0, 0, true, nil)
 		c.Observe("first_touch_classes", k.Class)
 	}
 	// part 2: real threads through the command line
@@ -164,6 +164,10 @@ func clipTo(s string, n int) string {
 var c12GeneratedFiles = map[string]func() map[string]string{}
 
 func c12ThreadsScenario(c *core.Ctx, family, class string, sc goxScenario, runs int) {
+	c12ThreadsScenarioCPUs(c, family, class, sc, runs, []int{2, 4})
+}
+
+func c12ThreadsScenarioCPUs(c *core.Ctx, family, class string, sc goxScenario, runs int, cpus []int) {
 	psc := sc
 	if c12GeneratedFiles[family] != nil {
 		psc.Files = nil
@@ -176,14 +180,11 @@ func c12ThreadsScenario(c *core.Ctx, family, class string, sc goxScenario, runs 
 	}
 	n := int64(1)
 	done := false
-	for _, cpu := range []int{1, 2, 4} {
+	for _, cpu := range cpus {
 		if cpu > runtime.NumCPU() {
 			continue // csvq clamps --cpu to the number of cores: not another configuration
 		}
 		for r := 0; r < runs && !done; r++ {
-			if cpu == 1 && r > 0 {
-				break
-			}
 			got, o := c12ThreadsOutcome(dir, sc, cpu)
 			n++
 			if o.Killed {
